@@ -4,6 +4,7 @@ package interp
 // RunPath (one symbolic path of one harness).
 
 import (
+	"os"
 	"fmt"
 	"go/token"
 	"go/types"
@@ -175,9 +176,27 @@ func symMapKey(i *interpreter, m value, key value, insert bool) value {
 		}
 		panic("symMapKey")
 	}
-	for _, k := range conc {
-		if try(k, k) {
-			return k
+	if !containsSym(key) {
+		// a concrete key equals a concrete stored key exactly when Go's map
+		// finds it; only boxed (symbolic) keys need a comparison, and those are
+		// strings / byte-wise comparable values
+		if _, present := mm[key]; present {
+			return key
+		}
+		switch key.(type) {
+		case string, symStr:
+		default:
+			if len(boxes) > 0 {
+				if _, isStr := boxes[0].v.(symStr); isStr {
+					boxes = nil
+				}
+			}
+		}
+	} else {
+		for _, k := range conc {
+			if try(k, k) {
+				return k
+			}
 		}
 	}
 	for _, b := range boxes {
@@ -243,6 +262,9 @@ func (p *Program) RunPath(harness *ssa.Function, prefix []int, solver *smt.Solve
 				} else {
 					res.Outcome = "panic"
 					res.Msg = msg
+					if os.Getenv("VERIF_DEBUG_PANIC") != "" {
+						res.Msg += "\n" + shortStack()
+					}
 				}
 			case string:
 				// interp-internal panics are strings: some model Go run-time panics
